@@ -302,7 +302,9 @@ type member struct {
 }
 
 // buildMatrix assembles a signature matrix for cid from the named defect class.
-func (c *c14env) buildMatrix(cid, msg []byte, members map[int][]*keys.PrivateKey, class string) sigMatrix {
+// target >= 0: only that vector carries the defect, every other vector is signed honestly (a defect in
+// one vector must not be masked by the refusal another vector would cause anyway).
+func (c *c14env) buildMatrix(cid, msg []byte, members map[int][]*keys.PrivateKey, class0 string, target int) sigMatrix {
 	r := c.b.Rng
 	ro := c.ros(cid)
 	other := []byte("another message")
@@ -314,6 +316,10 @@ func (c *c14env) buildMatrix(cid, msg []byte, members map[int][]*keys.PrivateKey
 		var v [][]byte
 		need := int(rep)
 		perm := r.Perm(len(ms))
+		class := class0
+		if target >= 0 && i != target {
+			class = "honest"
+		}
 		switch class {
 		case "honest":
 			for _, k := range perm[:min(need, len(ms))] {
@@ -370,6 +376,17 @@ func (c *c14env) buildMatrix(cid, msg []byte, members map[int][]*keys.PrivateKey
 			sm.honest = false
 		case "other-vector-member":
 			oth := members[(i+1)%len(ro.reps)]
+			if target >= 0 && len(ro.reps) >= 2 {
+				// any other vector, earlier or later
+				o := r.IntN(len(ro.reps) - 1)
+				if o >= i {
+					o++
+				}
+				oth = members[o]
+				if o < i {
+					c.b.Hit("signatures-of-an-earlier-vector's-members")
+				}
+			}
 			if len(ro.reps) < 2 {
 				oth = nonMember
 			}
@@ -394,6 +411,7 @@ func (c *c14env) buildMatrix(cid, msg []byte, members map[int][]*keys.PrivateKey
 		}
 		m = append(m, v)
 	}
+	class := class0
 	if class == "missing-vector" && len(m) > 0 {
 		m = m[:len(m)-1]
 		sm.honest = false
@@ -570,7 +588,14 @@ func runC14(b *runner.Batch) {
 		c.checkRoster(cid)
 		msg := []byte(fmt.Sprintf("message %d/%d", b.Index, round))
 		for _, class := range sigClasses {
-			c.judgeVerify(cid, msg, c.buildMatrix(cid, msg, members, class), class)
+			c.judgeVerify(cid, msg, c.buildMatrix(cid, msg, members, class, -1), class)
+			if nvec >= 2 && class != "honest" && class != "missing-vector" {
+				// the same defect in one vector only (every vector in turn), the others signed honestly
+				for t := 0; t < nvec; t++ {
+					c.judgeVerify(cid, msg, c.buildMatrix(cid, msg, members, class, t), class)
+					b.Hit("defect-in-one-vector-only")
+				}
+			}
 		}
 		// submitObjectPut: the message is the meta information itself
 		height := int64(c.w.Height())
@@ -588,7 +613,12 @@ func runC14(b *runner.Batch) {
 			}
 			oid := cidOf([]byte(fmt.Sprintf("obj %d %d %s", b.Index, round, class)))
 			meta := c.metaMap(cid, oid, network, vub)
-			sm := c.buildMatrix(cid, meta, members, class)
+			// half of the time the defect sits in one PRNG-chosen vector only
+			tgt := -1
+			if nvec >= 2 && b.Rng.IntN(2) == 0 {
+				tgt = b.Rng.IntN(nvec)
+			}
+			sm := c.buildMatrix(cid, meta, members, class, tgt)
 			r := c.w.Invoke(nil, c.cn, "submitObjectPut", meta, sigsArg(sm.sigs))
 			b.Tx(1)
 			rs := []*world.TxResult{r}
